@@ -27,6 +27,8 @@ Record rcase := mkrc {
   rc_c : geno;              (* the content that was materialised *)
   rc_q : query;
   rc_chunk : option Z;      (* chunk_size of the GenotypesPLINK reader *)
+  rc_strict_samples : bool; (* harness switch: also demand "empty result + warning, no exception" when the
+                               sample restriction selects no sample (cyvcf2/pgenlib raise; default false) *)
   rc_vcf : fobs;
   rc_pgen : fobs
 }.
@@ -63,13 +65,19 @@ Definition expected (q : query) (full rd : geno) : list vrec :=
          end) (combine (g_variants full) (g_rows full)) in
   match q_ids q with Some _ => sel | None => take (q_max q) sel end.
 
-Definition holds_fmt (q : query) (fo : fobs) : bool :=
+Definition holds_fmt (strict : bool) (q : query) (fo : fobs) : bool :=
   match fo_full fo with
   | Err _ => false
   | Ok full =>
     let m := keep_mask (q_samples q) (g_samples full) in
     let samples' := mask m (g_samples full) in
-    if is_nil samples' then true   (* a sample set matching nothing: the libraries raise; not checked (see report) *)
+    if is_nil samples' then
+      (* a sample set matching nothing: cyvcf2 / pgenlib raise; demanded only under the strict switch *)
+      negb strict
+      || match fo_read fo, fo_iter fo with
+         | Ok rd, Ok _ => is_nil (g_samples rd) && forallb is_nil (g_rows rd) && fo_warned fo
+         | _, _ => false
+         end
     else
       match fo_read fo, fo_iter fo with
       | Ok rd, Ok (isamples, irecs) =>
@@ -118,7 +126,8 @@ Definition holds_cross (k : rcase) : bool :=
          end).
 
 Definition holds_read (k : rcase) : bool :=
-  holds_fmt (rc_q k) (rc_vcf k) && holds_fmt (rc_q k) (rc_pgen k) && holds_cross k.
+  holds_fmt (rc_strict_samples k) (rc_q k) (rc_vcf k)
+  && holds_fmt (rc_strict_samples k) (rc_q k) (rc_pgen k) && holds_cross k.
 
 Definition check_read (k : rcase) : bool * bool := (agree_read k, holds_read k).
 
